@@ -804,16 +804,13 @@ Fixpoint ns_decls (fuel : nat) (name : bstr) (i : nat) : J unit :=
       else jret tt
   end.
 
-Definition visit_template (prev : option (list bool)) (name : bstr) (body : node) (ae : N) : J unit :=
-  st <~ jget ;;
-  let old := j_auto st in
+(* visitTemplate, in three parts: up to the blank line, the function header line, the rest *)
+Definition template_head (ae : N) : J unit :=
   (if ae =? 0 then jret tt else jmod (set_auto ae)) ;;;
-  let all_opt := match prev with
-                 | Some flags => negb (Nat.eqb (length flags) 0) && forallb (fun x => x) flags
-                 | None => false
-                 end in
-  jsln [] ;;;
-  jsln (fmt_chunks (fmt_template_text (o_fmt o)) name ++ [CText t_fn_params]) ;;;
+  jsln [].
+Definition template_header_line (name : bstr) : list chunk :=
+  fmt_chunks (fmt_template_text (o_fmt o)) name ++ [CText t_fn_params].
+Definition template_rest (old : N) (all_opt : bool) (name : bstr) (body : node) : J unit :=
   jmod (fun st => set_infile (fmt_bytes (fmt_template_name (o_fmt o)) name :: j_infile st) st) ;;;
   indent_inc ;;;
   (if all_opt then jsln [CText t_optdata_init] else jret tt) ;;;
@@ -826,6 +823,16 @@ Definition visit_template (prev : option (list bool)) (name : bstr) (body : node
   jsln [CText t_fn_end] ;;;
   jmod (set_auto old) ;;;
   jsc_pop.
+Definition visit_template (prev : option (list bool)) (name : bstr) (body : node) (ae : N) : J unit :=
+  st <~ jget ;;
+  let old := j_auto st in
+  let all_opt := match prev with
+                 | Some flags => negb (Nat.eqb (length flags) 0) && forallb (fun x => x) flags
+                 | None => false
+                 end in
+  template_head ae ;;;
+  jsln (template_header_line name) ;;;
+  template_rest old all_opt name body.
 
 Definition jwalk_node (prev : option (list bool)) (n : node) : J unit :=
   match n with
